@@ -182,6 +182,7 @@ type ftr struct {
 	recvName  string
 	recvObj   types.Object // the receiver variable (nil for plain functions)
 	allowMut  bool
+	now       bool // reads the wall clock: extra parameter now : Z
 }
 
 func (t *ftr) bad(n ast.Node, format string, a ...any) {
@@ -253,6 +254,14 @@ func kindOfType(ty types.Type) (tkind, bool) {
 		// a value of a type parameter (V any): the code can only copy, zero and return it, so by
 		// parametricity one instance stands for all — a number, whose zero value is 0
 		return tkind{k: "N", w: 64}, true
+	}
+	if n, ok := types.Unalias(ty).(*types.Named); ok {
+		if _, isIface := n.Underlying().(*types.Interface); isIface {
+			if inf := lookupIface(n); inf != nil {
+				return tkind{k: "iface", name: inf.tag}, true
+			}
+			return tkind{}, false
+		}
 	}
 	if n, ok := ty.(*types.Named); ok {
 		if isTimeTime(n) {
@@ -328,6 +337,8 @@ func (k tkind) coq() string {
 		return "(list " + k.elem.coq() + ")"
 	case "func":
 		return k.fn
+	case "iface":
+		return "I_" + k.name
 	}
 	return "?"
 }
@@ -374,6 +385,8 @@ func (t *ftr) zeroK(k tkind, ty types.Type, at ast.Node) string {
 		return "(0)%Z"
 	case "N":
 		return "(0)%N"
+	case "iface":
+		return "I_" + k.name + "_nil"
 	case "list":
 		if k.alen >= 0 {
 			var ety types.Type
@@ -524,6 +537,10 @@ func (t *ftr) ensureKind(k tkind, ty types.Type, at ast.Node) {
 	switch k.k {
 	case "struct":
 		t.ensureStruct(namedOf(ty), at)
+	case "iface":
+		if inf := ifaceOf(ty); inf != nil {
+			t.ensureIface(inf, at)
+		}
 	case "list":
 		switch u := types.Unalias(ty).Underlying().(type) {
 		case *types.Slice:
@@ -881,6 +898,8 @@ func (t *ftr) expr(e ast.Expr) string {
 		return t.composite(e)
 	case *ast.CallExpr:
 		return t.call(e)
+	case *ast.TypeAssertExpr:
+		return t.typeAssert(e)
 	}
 	t.bad(e, "unsupported expression %T", e)
 	return ""
@@ -1000,6 +1019,8 @@ func (t *ftr) binary(e *ast.BinaryExpr) string {
 				isnil = "(negb " + t.expr(o) + ")"
 			case ok.k == "list":
 				isnil = "(Z.eqb (go_len " + t.expr(o) + ") (0)%Z)"
+			case ok.k == "iface":
+				isnil = "(match " + t.expr(o) + " with I_" + ok.name + "_nil => true | _ => false end)"
 			case ok.k == "struct" && isPtr && (assumeNonNil || t.isRecvIdent(o)):
 				// the receiver of a translated method is the value it points to, hence non-nil
 				isnil = "false"
@@ -1110,6 +1131,16 @@ func (t *ftr) exprAs(e ast.Expr, k tkind) string {
 			return s
 		}
 	}
+	if k.k == "iface" {
+		for _, inf := range ifaceMemo {
+			if inf.tag == k.name {
+				if v, ok := t.ifaceInject(e, inf); ok {
+					return v
+				}
+			}
+		}
+		return t.expr(e)
+	}
 	if t.isNil(e) {
 		switch k.k {
 		case "err":
@@ -1202,6 +1233,20 @@ func (t *ftr) stdFunc(e *ast.CallExpr) (string, bool) {
 	arg := func(i int) string { return t.expr(e.Args[i]) }
 	be := map[string]string{"Uint16": "16", "Uint32": "32", "Uint64": "64"}
 	switch {
+	case full == "time.Now" || full == "time.Since" || full == "time.Until":
+		if !t.now {
+			t.bad(e, "%s: the clock is a parameter of whole-function translations only (purefunc), not of loopfunc items", full)
+		}
+		switch full {
+		case "time.Now":
+			return "now", true
+		case "time.Since":
+			return "(Z.sub now " + arg(0) + ")", true
+		}
+		return "(Z.sub " + arg(0) + " now)", true
+	case full == "time.Unix" && len(e.Args) == 2:
+		// an instant from seconds and nanoseconds since the epoch, on the ideal ns line
+		return "(Z.add (Z.mul " + t.exprAs(e.Args[0], tkind{k: "Z", w: 64}) + " (1000000000)%Z) " + t.exprAs(e.Args[1], tkind{k: "Z", w: 64}) + ")", true
 	case strings.HasPrefix(full, "(encoding/binary.bigEndian).") || strings.HasPrefix(full, "(encoding/binary.littleEndian)."):
 		usesGoList = true
 		pre := "go_be"
@@ -1346,6 +1391,15 @@ func (t *ftr) call(e *ast.CallExpr) string {
 			}
 		}
 	case *ast.SelectorExpr:
+		if inf := ifaceOf(t.typeOf(f.X)); inf != nil {
+			if _, isMethod := t.pi.info.Uses[f.Sel].(*types.Func); isMethod {
+				t.ensureIface(inf, e)
+				if f.Sel.Name == "Header" && inf.hdr != nil && len(e.Args) == 0 {
+					return "(I_" + inf.tag + "_Header " + t.expr(f.X) + ")"
+				}
+				t.bad(e, "method %s called on a value of interface %s (only Header() of a record-like interface is translated)", f.Sel.Name, inf.key)
+			}
+		}
 		if n := namedOf(t.typeOf(f.X)); isTimeTime(n) {
 			x := t.expr(f.X)
 			arg := func(i int) string { return t.expr(e.Args[i]) }
@@ -1366,6 +1420,8 @@ func (t *ftr) call(e *ast.CallExpr) string {
 				return "(match Z.compare " + x + " " + arg(0) + " with Lt => (-1)%Z | Eq => (0)%Z | Gt => (1)%Z end)"
 			case "UnixNano":
 				return x
+			case "Unix":
+				return "(Z.div " + x + " (1000000000)%Z)"
 			}
 			t.bad(e, "time.Time method %s", f.Sel.Name)
 		}
@@ -1408,6 +1464,12 @@ func (t *ftr) apply(pi *pkgInfo, dir, fn string, recv ast.Expr, e *ast.CallExpr)
 			t.bad(e, "internal: callee needs fuel but caller was not classified so")
 		}
 		parts = append(parts, "fuel")
+	}
+	if nowFuncs[dir+"."+fn] {
+		if !t.now {
+			t.bad(e, "internal: callee reads the clock but caller was not classified so")
+		}
+		parts = append(parts, "now")
 	}
 	if recv != nil {
 		parts = append(parts, t.expr(recv))
@@ -1740,6 +1802,8 @@ func (t *ftr) block(list []ast.Stmt, k func() string) string {
 			return t.block([]ast.Stmt{s.Init}, mk)
 		}
 		return mk()
+	case *ast.TypeSwitchStmt:
+		return t.typeSwitch(s, restK)
 	case *ast.AssignStmt:
 		if s.Tok == token.ASSIGN || s.Tok == token.DEFINE {
 			if len(s.Lhs) == len(s.Rhs) {
@@ -2024,7 +2088,11 @@ func (t *ftr) joinedIf(s *ast.IfStmt, restK func() string) (string, bool) {
 				switch x := n.(type) {
 				case *ast.FuncLit:
 					return false
-				case *ast.ReturnStmt, *ast.BranchStmt, *ast.ForStmt, *ast.RangeStmt, *ast.IfStmt, *ast.SwitchStmt:
+				case *ast.IfStmt:
+					if !joinNested {
+						ok = false
+					}
+				case *ast.ReturnStmt, *ast.BranchStmt, *ast.ForStmt, *ast.RangeStmt, *ast.SwitchStmt, *ast.TypeSwitchStmt:
 					_ = x
 					ok = false
 				case *ast.CallExpr:
@@ -2059,7 +2127,7 @@ func (t *ftr) joinedIf(s *ast.IfStmt, restK func() string) (string, bool) {
 		}
 		return ok
 	}
-	if s.Init != nil || !simple(s.Body.List) || !simple(elseList) {
+	if (s.Init != nil && !joinNested) || !simple(s.Body.List) || !simple(elseList) {
 		return "", false
 	}
 	// variables the branches assign that live outside the statement
@@ -2165,6 +2233,10 @@ func (t *ftr) emitLoop(at ast.Node, lead []envVar, leadArgs []string, budget str
 		lead = append([]envVar{{"fuel", "nat"}}, lead...)
 		leadArgs = append([]string{"fuel"}, leadArgs...)
 	}
+	if t.now {
+		lead = append([]envVar{{"now", "Z"}}, lead...)
+		leadArgs = append([]string{"now"}, leadArgs...)
+	}
 	num := t.nloops
 	fix := fmt.Sprintf("%s_loop%d", coqFuncName(t.dir, t.fn), num)
 	state := append([]envVar{}, t.env...)
@@ -2176,7 +2248,7 @@ func (t *ftr) emitLoop(at ast.Node, lead []envVar, leadArgs []string, budget str
 	savedEnv := t.env
 	t.env = nil
 	for _, l := range lead {
-		if l.name != "fuel" { // the budget is passed along but is not a program variable
+		if l.name != "fuel" && l.name != "now" { // the budget and the clock are passed along but are not program variables
 			t.env = append(t.env, l)
 		}
 	}
@@ -2545,6 +2617,11 @@ func needsFuel(pi *pkgInfo, dir, fn string) bool {
 // copying the rest of the function into both branches. A run of n such statements is then linear, not 2^n.
 var joinIfs bool
 
+// joinNested (item flag "join_nested_ifs", implies join_ifs): the join-point form is also used for an if
+// statement with an init clause (its variables live inside the statement) and for one whose branches contain
+// further if statements (rendered in continuation-passing form around the join tuple).
+var joinNested bool
+
 var allowParamMutation bool
 
 // asciiStrings: strings.ToLower / EqualFold are translated as their ASCII restrictions (item flag
@@ -2570,13 +2647,17 @@ func ensureFunc(pi *pkgInfo, dir, fn string, at ast.Node) string {
 		broken("purefunc %s: function not found", key)
 	}
 	t := &ftr{pi: pi, dir: dir, fn: fn, names: map[types.Object]string{}, used: map[string]bool{}, params: map[types.Object]bool{}, allowMut: allowParamMutation}
-	for _, r := range []string{"fuel", "lf", "lf0", "r_i", "r_s", "r_n", "r_src", "r_ret", "st_loop"} {
+	for _, r := range []string{"fuel", "now", "lf", "lf0", "r_i", "r_s", "r_n", "r_src", "r_ret", "st_loop", "v_ta"} {
 		t.used[r] = true
 	}
 	t.opt = needsFuel(pi, dir, fn)
+	t.now = needsNow(pi, dir, fn)
 	var params []string
 	if t.opt {
 		params = append(params, "(fuel : nat)")
+	}
+	if t.now {
+		params = append(params, "(now : Z)")
 	}
 	var recvType, recvZero string
 	addParam := func(id *ast.Ident, ty types.Type, at ast.Node) {
@@ -2724,7 +2805,8 @@ func doPureFunc(it Item) {
 	allowParamMutation = it.AllowParamMutation
 	assumeNonNil = it.NonNilPointers
 	asciiStrings = it.ASCIIStrings
-	joinIfs = it.JoinIfs
+	joinIfs = it.JoinIfs || it.JoinNestedIfs
+	joinNested = it.JoinNestedIfs
 	pi := loadPkg(it.Pkg)
 	name := ensureFunc(pi, it.Pkg, it.Func, nil)
 	if it.As != "" && it.As != name {
@@ -2743,7 +2825,8 @@ func doPureFunc(it Item) {
 func doLoopFunc(it Item) {
 	rootDir = it.Pkg
 	asciiStrings = it.ASCIIStrings
-	joinIfs = it.JoinIfs
+	joinIfs = it.JoinIfs || it.JoinNestedIfs
+	joinNested = it.JoinNestedIfs
 	assumeNonNil = it.NonNilPointers
 	pi := loadPkg(it.Pkg)
 	fd := pi.findFunc(it.Func)
